@@ -254,7 +254,12 @@ pub fn execute_hsrv(plan: &Plan) -> Outcome {
                     _ => Addr::V4(T_IP, T_PORT),
                 };
                 let reply = format!("reply-{i}").into_bytes();
-                server_pid += 1;
+                // ids only ever have to be fresh: the hostile server numbers sparsely (starts near a boundary of the replay window's
+                // ring, jumps of every size class)
+                if i == 0 {
+                    server_pid = *g.pick(&[0u64, 0, 60, 8000, 8100, 8190, 16290, 1 << 40]) + g.below(130);
+                }
+                server_pid += *g.pick(&[1u64, 1, 2, 63, 64, 65, 100, 129, 200, 1000, 4000, 8064, 8128, 8191, 8192, 8193, 9000]);
                 let mut build = |g: &mut Gen, pid: u64, ty: u8| -> Vec<u8> {
                     if !is_2022(&cipher) {
                         refimpl::ss::udp_packet(&cipher, &c.password, &g.bytes(key_len(&cipher)), &from_addr, &reply)
